@@ -283,6 +283,34 @@ Theorem fallback_chain_table : forall adds major minor vendor k v,
 Proof. exact ProofsNb.nb_run_spec. Qed.
 Print Assumptions fallback_chain_table.
 
+(* Glue: the table NameBuilder produces from a source that names each id once and
+   uses reserved ids only is a legal input of the registration theorems above
+   (reserved ids, no empty record), so for such a source every id fvar / STAT use
+   exists, is >= 256 where required and carries the source string — from fontinfo
+   fields to fvar, for every HashMap iteration order. *)
+Theorem source_to_fvar_ids_exist : forall adds major minor vendor axes insts rp,
+  NoDup (map fst adds) -> Forall (fun a => fst a <= 255) adds ->
+  let nm := nb_run adds major minor vendor in
+  Permutation rp (alloc nm axes insts) ->
+  let fin := extend nm rp in
+  Forall (fun e => snd e <> []) nm
+  /\ (forall a, In a (variable_axes axes) ->
+     exists id enc, reusable_name_id fin (a_label a) false = Some id
+                    /\ 256 <= id /\ In ((id, enc), a_label a) fin)
+  /\ (forall i, In i (kept_instances axes insts) ->
+     exists id enc, reusable_name_id fin (i_name i) (is_default axes i) = Some id
+                    /\ In ((id, enc), i_name i) fin
+                    /\ (is_default axes i = false -> 256 <= id))
+  /\ (forall i p, In i (kept_instances axes insts) -> i_ps i = Some p ->
+     exists id enc, reusable_name_id fin p false = Some id
+                    /\ 256 <= id /\ In ((id, enc), p) fin).
+Proof.
+  intros adds major minor vendor axes insts rp ND R nm P fin.
+  split; [apply nb_run_nonempty|].
+  apply Proofs.used_ids_exist; [apply nb_run_ids_reserved; assumption|exact P].
+Qed.
+Print Assumptions source_to_fvar_ids_exist.
+
 (* typographic family "Fam", typographic subfamily "Light", nothing else *)
 Example fallback_chain_nonvacuous :
   let adds := [(16, [70;97;109]); (17, [76;105;103;104;116])] in
